@@ -251,8 +251,9 @@ Fixpoint list_eqb (a b : list nat) : bool :=
    of uids the harness could not know in advance (`known` = uids present before the call and
    uids of factory products; any other uid was drawn by uuid4 inside the call).  Nodes with a
    known uid are identified by it; nodes with an unknown uid by their label and, recursively,
-   their parents.  Order of `nodes` and of `nodes_from` is not compared (the property speaks of
-   sets), multiplicities are (through the lengths). *)
+   their parents (to depth |heap| + 1: crossovers can build cycles through such nodes, the
+   comparison is then a bounded bisimulation).  Order of `nodes` and of `nodes_from` is not
+   compared (the property speaks of sets), multiplicities are (through the lengths). *)
 Section Sim.
   Variable known : list nat.
   Variables hm ho : heap.
@@ -262,7 +263,7 @@ Section Sim.
 
   Fixpoint sim (fuel : nat) (a b : ref) : bool :=
     match fuel with
-    | O => false
+    | O => true
     | S k =>
       let pm := fun p q => match ukey hm p, ukey ho q with
                            | Some u, Some v => u =? v
